@@ -276,8 +276,36 @@ def _child(task, corpus_file, outf):
             out.append(hashlib.sha256(C.canonserialize(v)).hexdigest())
     elif task == "calls":
         # corpus: list of [fname, args...]; stdout is the real (configured) stdout of the child
-        for call in corpus:
+        def via_file(i, doc):
+            """every other metadata argument takes the way real metadata takes: written to a file by ANOTHER tool (raw UTF-8, not
+            escaped) and read back with the library's loader, under this child's locale / encoding settings"""
+            if sys.argv[1] != "calls" or i % 2 == 0 or not isinstance(doc, dict):
+                return doc
+            import tempfile
+            try:
+                data = json.dumps(doc, ensure_ascii=False, indent=1).encode("utf-8")
+            except (UnicodeEncodeError, TypeError, ValueError):
+                return doc
+            d = tempfile.mkdtemp(prefix="viafile-")
+            try:
+                fn_ = os.path.join(d, "m.json")
+                with open(fn_, "wb") as f:
+                    f.write(data)
+                return C.load_metadata_from_file(fn_)
+            finally:
+                import shutil
+                shutil.rmtree(d, ignore_errors=True)
+
+        for i_call, call in enumerate(corpus):
             fn, args = call[0], call[1:]
+            try:
+                if fn == "verify_delegation":
+                    args = [args[0], via_file(i_call, args[1]), via_file(i_call, args[2]), args[3]]
+                elif fn == "verify_root":
+                    args = [via_file(i_call, args[0]), via_file(i_call, args[1])]
+            except BaseException as e:      # noqa: BLE001 - the loader's failure is the outcome of this call
+                out.append("loader:" + type(e).__name__)
+                continue
             if fn == "verify_signable":
                 out.append(_verdict(A.verify_signable, args[0], args[1], args[2], gpg=args[3]))
             elif fn == "verify_delegation":
